@@ -713,6 +713,11 @@ class Evaluator:
         if fid in self.cm.by_id and self.cm.by_id[fid].body is not None:
             yield from self.inline(self.cm.by_id[fid], args, n, st)
             return
+        if name in ('__assert_fail', '__assert_perror_fail', '__assert', 'abort', 'terminate', 'exit', '_Exit', 'quick_exit',
+                    '__builtin_unreachable', '__builtin_trap', '__throw_out_of_range', '__throw_logic_error', '__throw_bad_optional_access'):
+            # no-return call (failed assert ...): the path ends here, nothing after it is reachable
+            st.ev('noreturn', name, site_of(n, st))
+            return
         if name in ('move', 'forward', 'as_const', 'addressof'):
             yield from self.eval(args[0], st)
             return
@@ -1268,6 +1273,12 @@ class Evaluator:
                     st2.ev('cond', term, False, s_)
                     yield from chain(k + 1, st2)
             yield from chain(0, st1)
+
+    def s_CXXTryStmt(self, n, st):
+        # the properties assume that user key/value operations do not throw: the handlers are unreachable, the try block runs
+        parts = [c for c in n.get('inner', []) if isinstance(c, dict) and c.get('kind')]
+        st.ev('note', 'try-block analysed without its handlers (no-throw premise)', site_of(n, st))
+        yield from self.exec(parts[0], st)
 
     def s_BreakStmt(self, n, st):
         yield st, ('break',)
